@@ -195,6 +195,11 @@ func c10Case(w *core.W, j int) {
 		zone = model.Name{[]byte("z^ne[1]"), []byte("T@st`x")} // octets whose 0x20-partner is not a letter either
 	}
 	k, err := getKey(alg, bits, zone.Pres(), 257, j%2)
+	if alg == dns.ED25519 && (j/len(allAlgs))%3 == 0 {
+		// a key whose tag computation needs the second carry (RFC 4034 Appendix B adds the carry once)
+		k, err = doubleCarryKey(zone.Pres(), 257)
+		w.Count("double_carry_keys", 1)
+	}
 	if err != nil {
 		w.Inconclusive("keygen:" + err.Error())
 		return
